@@ -102,4 +102,34 @@ PROPS.update({
     },
 })
 
+PROPS.update({
+    "C11": {
+        "title": "Transcript lock-step",
+        "rule": GEN + "Histories of 2..6 operations drawn from {open(k polys), batch_open(query set), open_combinations(LC)} proved on ONE recording sponge pre-seeded with arbitrary bytes and verified in the same order on an identically initialised sponge. Oracles: every check accepts; after every prefix the two sponge states are equal (two field elements squeezed from clones); a proof verified after an extra absorb on the verifier side, or an operation (statement + proof) verified at another position of the history, is not accepted when the operation involves a non-constant polynomial (else skipped)." + DIST,
+        "required_classes": ["lock-step-accept", "lock-step-state", "different-prestate-rejected", "moved-proof-rejected"],
+        "technique": "runtime monitoring: operation histories on a recording sponge, state-equality oracle after every prefix + transcript-binding reject-oracle",
+        "level_text": "History exploration (sequences, not single calls): the sponge is the only state that crosses calls, and it is caller-owned, so wrapping it observes every absorb/squeeze of both sides without touching the implementation.",
+        "design_ref": "5 (C11)",
+        "assumptions": TRUST + ["sponge state equality is decided by squeezing 2 field elements from clones (collision probability negligible)"],
+    },
+    "C12": {
+        "title": "Serialization",
+        "rule": GEN + "Every artefact produced along the transcript (universal parameters, committer key, verifier key, each commitment, each commitment state, batch proof, combination proof, labelled polynomial; KZG10 powers/keys/proofs/randomness; multilinear-PST keys/commitment/proof) is serialized compressed and uncompressed: serialized_size == bytes written; deserialization with and without validation consumes all bytes and re-serializes identically; proper prefixes (all for <= 600 bytes, 48 sampled cut points otherwise) fail. Decisions of batch_check, check and check_combinations on an honest and on a tampered claim are equal for original and deserialized (vk, commitments, proofs); deserialized parameters trim to byte-identical keys that verify; deserialized committer key and states produce accepted proofs." + DIST,
+        "required_classes": ["roundtrip[universal-params]", "roundtrip[committer-key]", "roundtrip[verifier-key]", "roundtrip[commitment]", "roundtrip[commitment-state]", "roundtrip[batch-proof]", "decision-preserved[batch_check]", "decision-preserved[check]", "trim-of-deserialized-params"],
+        "technique": "runtime monitoring: round-trip laws + differential verification decisions between original and deserialized artefacts",
+        "level_text": "Round-trip and size laws on every artefact of every generated transcript plus behavioural equivalence of the reloaded values in all three verification entry points (which is what exposes wrongly rebuilt prepared elements).",
+        "design_ref": "5 (C12)",
+        "assumptions": TRUST,
+    },
+    "C13": {
+        "title": "Column openings of the code-based schemes",
+        "rule": "(a) calculate_t (hook H1) on seeded (lambda in 1..256, distance (rho-1)/rho for rho=2..16 and Brakedown's 61000/1521000, n: small, geometric ladder to 2^41, near powers of 256, and near the field-size boundary lambda+log2 n ~ bits) over four fields (252/253/255/381 bits), compared with an exact big-integer evaluation of 2(1-d/2)^t + n/|F| <= 2^-lambda at t and t-1 with the true modulus (and, for classification only, with |F|:=2^bits). (b) honest proofs of univariate / multilinear Ligero (sec_param x rho_inv grid through the public constructor) and Brakedown, degrees up to 6000 / 13 variables: column and path count == t, leaf indices == the harness's derivation from the recorded squeeze_bytes events, inside the codeword, byte width covers the codeword, every column authenticated against the root by an independent path computation. (c) reported distance == constructor arguments. (d) encode linear, zero-preserving, of the declared length. (e) parameter sets for which no t exists are refused." + DIST,
+        "required_classes": ["calculate-t-minimal", "column-count", "column-positions", "columns-authenticated", "encode-linear", "distance-reported"],
+        "technique": "runtime monitoring: exact-rational oracle on a hooked pure function + structural monitor over mirrored proofs and the recorded sponge trace",
+        "level_text": "The floating-point column-count formula is compared with exact arithmetic on 10^4 (quick) to 10^6 (thorough) parameter points including the numerically critical region, and every generated proof is checked to carry exactly that many authenticated, transcript-derived columns.",
+        "design_ref": "5 (C13)",
+        "assumptions": TRUST,
+    },
+})
+
 ALL_IDS = ["C%02d" % i for i in range(1, 20)]
